@@ -14,6 +14,8 @@ import (
 	"errors"
 	"io"
 	gofs "io/fs"
+	"net/http"
+	"net/http/httptest"
 	"net/url"
 	"os"
 	"path/filepath"
@@ -24,6 +26,7 @@ import (
 	"github.com/go-git/go-billy/v6/memfs"
 	"github.com/go-git/go-billy/v6/osfs"
 
+	"github.com/go-git/go-git/v6/backend"
 	"github.com/go-git/go-git/v6/plumbing/transport"
 	"github.com/go-git/go-git/v6/storage/filesystem"
 
@@ -201,6 +204,17 @@ func load(c lib.Case) (lib.Out, any) {
 	}
 	var log []string
 	l := transport.NewFilesystemLoader(recFS{base, &log}, c.Bool("strict"))
+	if c.S("via") == "http" {
+		// the dumb-HTTP route of backend.Backend: GET <request path>/HEAD, served from the loaded repository
+		b := backend.New(l)
+		rw := httptest.NewRecorder()
+		b.ServeHTTP(rw, &http.Request{Method: http.MethodGet, URL: &url.URL{Path: "/" + subst(c.B("req")) + "/HEAD"}, Header: http.Header{}})
+		body := rw.Body.String()
+		if len(body) > 256 {
+			body = body[:256]
+		}
+		return lib.Ok(lib.Int(int64(rw.Code))), map[string]any{"touched": uniq(log), "http_status": rw.Code, "http_body": body}
+	}
 	st, err := l.Load(&url.URL{Path: subst(c.B("req"))})
 	touched := uniq(log)
 	extra := map[string]any{"touched": touched}
